@@ -16,6 +16,8 @@ EXEMPT = {
     ("ares_qcache_insert_int", "entry", "release-after-move"):
         "the entry is taken back from the cache map with ares_htable_strvp_remove() before it is released",
     ("ares_qcache_insert_int", "entry->key", "release-after-move"): "member of entry, see entry",
+    ("ares_qcache_calc_key", "buf", "leak"):
+        "only when dnsrec == NULL: static function, both callers (insert, fetch) pass a record they have already used",
     ("ares_buf_finish_bin", "buf nonreleasing-returns=1", "contract"):
         "the one remaining non-releasing return is the documented misuse path (const buffer)",
     ("ares_array_finish", "arr nonreleasing-returns=1", "contract"):
@@ -62,7 +64,15 @@ def own_rule(prog, R, rid, files, floor, desc=None, kinds=("leak", "double-relea
                 continue
             seen.add(key)
             if x["kind"] == "leak-defensive":
-                r.info.setdefault("defensive_only", []).append(key)
+                # a leak that exists only on a path where a pointer argument is NULL.  That is not automatically harmless (NULL can be a
+                # documented "skip the output" mode): it is reported like any other leak unless listed, with its reason, in EXEMPT
+                key = "fn=%s var=%s kind=leak" % (f.name, x["var"])
+                ex = EXEMPT.get((f.name, x["var"], "leak"))
+                if ex:
+                    r.ok(key + " (exempt: %s)" % ex[:60], "%s:%s" % (f.file, x["ln"]), nontrivial=False)
+                else:
+                    bad = True
+                    r.viol(key, f.name, "%s:%s" % (f.file, x["ln"]), x["msg"])
                 continue
             ex = EXEMPT.get((f.name, x["var"], x["kind"]))
             if ex:
